@@ -296,3 +296,78 @@ var jC12 = reg(&Judge{
 })
 
 func TestC12(t *testing.T) { replayOr(t, jC12) }
+
+// ---------------------------------------------------------------- C09
+
+var jC09 = reg(&Judge{
+	Prop: "C09", Test: "TestC09",
+	Profile: Profile{MinProcs: 1, MaxProcs: 5, EdgeProb: 40, Conds: allConds,
+		Policies: []string{"", "no", "always", "on_failure", "exit_on_failure"}, MaxRestartsMax: 2, BackoffMax: 1,
+		Probes: true, ReadyLines: true, MaxSteps: 10, Codes: []int{0, 1, 3},
+		ExitOnFlags: true, StartErr: true, BadDir: true, SignalBeh: []string{"", "", "hold", "ignore"}, Disabled: true,
+		APIOps: []string{sc.OpStart, sc.OpStop, sc.OpRestart, sc.OpShutdown}, UnknownNames: true},
+	Oracle: oracle.C09,
+	Classify: func(h *sc.History, x *oracle.Idx) (bool, []string) {
+		var labels []string
+		nt := false
+		cnt := map[string]int{}
+		special := map[string]bool{}
+		for _, e := range h.Events {
+			if e.Kind == world.EvState {
+				cnt[e.Proc]++
+				labels = append(labels, "state:"+e.Text)
+				switch e.Text {
+				case "Restarting", "Terminating", "Skipped", "Error":
+					special[e.Proc] = true
+				}
+			}
+		}
+		for p, n := range cnt {
+			if n >= 3 && special[p] {
+				nt = true
+			}
+		}
+		return nt, labels
+	},
+})
+
+func TestC09(t *testing.T) { replayOr(t, jC09) }
+
+// ---------------------------------------------------------------- C08
+
+var jC08 = reg(&Judge{
+	Prop: "C08", Test: "TestC08",
+	Profile: Profile{MinProcs: 1, MaxProcs: 3, EdgeProb: 30, Conds: []string{"process_completed", "process_started", "process_completed_successfully"},
+		Policies: []string{"", "no", "always", "on_failure"}, MaxRestartsMax: 2, BackoffMax: 1,
+		MaxSteps: 16, Codes: []int{0, 1}, SignalBeh: []string{"", "", "", "hold"},
+		APIOps: []string{sc.OpStart, sc.OpStop, sc.OpRestart, sc.OpStart, sc.OpStop, sc.OpRestart, sc.OpStopMany}, UnknownNames: true},
+	Oracle: oracle.C08,
+	Classify: func(h *sc.History, x *oracle.Idx) (bool, []string) {
+		var labels []string
+		nt := false
+		onLive := map[string]bool{}
+		for _, a := range h.Applied {
+			if !a.Applicable {
+				continue
+			}
+			op := a.Step.Op
+			if op != sc.OpStart && op != sc.OpStop && op != sc.OpRestart {
+				continue
+			}
+			st := x.LastStateBefore(a.Step.Proc, a.SeqBefore)
+			if st == "" {
+				st = "none"
+			}
+			labels = append(labels, op+"-on:"+st)
+			if onLive[a.Step.Proc] {
+				nt = true
+			}
+			if st == "Running" {
+				onLive[a.Step.Proc] = true
+			}
+		}
+		return nt, labels
+	},
+})
+
+func TestC08(t *testing.T) { replayOr(t, jC08) }
